@@ -193,6 +193,14 @@ def verify_function(tu, fname, externs, init=pycfunction_init, config=None,
         s[ob.status] += 1
         if ob.status == 'proved':
             s['by'].add(ob.extra.get('by', 'z3'))
+        if ob.status == 'refuted':
+            # which nondeterministic choices (named contract outcomes) the
+            # refuted instance depends on
+            tags = sorted(str(c_) for c_ in (ob.pc or []) if z3.is_const(c_)
+                          and '@' in str(c_))
+            tl = s.setdefault('refuted_choices', [])
+            if tags not in tl and len(tl) < 6:
+                tl.append(tags)
         if ob.status == 'refuted' and s['model'] is None:
             s['model'] = model_for(ex, ob, timeout_ms)
     for s in sites.values():
